@@ -18,16 +18,24 @@
     response.  Hence: no limit applies while the proxy waits for the origin.
   * `maybeHandshakeTLS` (listener TLS, inside the per-connection goroutine): `HandshakeContext` under
     `TLSHandshakeTimeout`, counted from the start of `handleLoop`.
-  * `handleMITM`: after the `200` to CONNECT a `Peek(1)` under the deadline the CONNECT request left armed
-    (`wholeReqDeadline`: none unless ReadTimeout is set), then `HandshakeContext` under
-    `MITMTLSHandshakeTimeout` (= the same configured HandshakeTimeout) counted from the first tunnel byte.
+  * `handleMITM`: after the `200` to CONNECT the idle deadline is armed anew (`now + idleTimeout()`, as in
+    `readRequest`), then `Peek(1)` for the first tunnel byte; on that byte the read deadline is cleared and
+    `HandshakeContext` runs under `MITMTLSHandshakeTimeout` (= the same configured HandshakeTimeout) counted
+    from the first tunnel byte.  (Before the repair of F32 the peek ran under the deadline the CONNECT
+    request had left armed — none unless ReadTimeout is set — and a silent client was never closed.)
   * `proxyproto/net.go readHeaderContext`: the PROXY header must be complete `ReadHeaderTimeout` after the
     FIRST USE of the connection; bytes of an incomplete header do not extend it; on expiry the socket is
     closed.  Timeout 0 = wait for ever.
-  * `internal/martian/proxy.go Serve`: one sequential loop: `Accept`; `log.Debug(…, conn.RemoteAddr())`;
-    `go handleLoop(conn)`.  Go evaluates the argument whatever the log level.  On a PROXY-protocol listener
-    `RemoteAddr()` is the first use of the connection: it blocks until the header has been read or has timed
-    out (F8), and only then is the goroutine started and the next connection accepted.
+  * `internal/martian/proxy.go Serve`: one sequential loop: `Accept`; `go handleLoop(conn)`.  Nothing in the
+    loop uses the connection (`net.go Listener.Accept` only wraps it: conntrack, `tls.Server`), so neither
+    the stacking nor the limits nor anything a peer sends enters the loop.
+  * `handleLoop` (the connection's own goroutine) begins with `log.Debug(…, conn.RemoteAddr())`; Go
+    evaluates the argument whatever the log level.  On a PROXY-protocol listener that call is the first use
+    of the connection: it blocks until the header has been read or has timed out, i.e. the header wait is
+    the first phase of the connection's own process and its limit counts from the start of the goroutine;
+    `maybeHandshakeTLS` / the first `readRequest` follow once it returned.  (Before the repair of F8 the
+    log line stood in the accept loop of `Serve`, which therefore waited for the header of every
+    connection before accepting the next one.)
 -/
 import FwdVerif.Lib.Wire
 
@@ -67,7 +75,7 @@ def limitOf (L : Limits) : Phase → Nat
   | .idle => idleLimit L
   | .header => headerLimit L
   | .body => L.read
-  | .mitmPeek => L.read
+  | .mitmPeek => idleLimit L
   | .mitmHandshake => L.tls
   | .waitingForOrigin => 0
 
@@ -84,7 +92,7 @@ deriving DecidableEq, Repr
 
 def enter (L : Limits) (p : Phase) (t : Nat) : Conn := ⟨p, t, dl (limitOf L p) t⟩
 
-/-- the state of a connection at the instant `Serve` first uses it -/
+/-- the state of a connection at the instant its goroutine (`handleLoop`) starts -/
 def accepted (S : Stacking) (L : Limits) (t : Nat) : Conn :=
   if S.proxy then enter L .proxyHeader t
   else if S.tls then enter L .tlsHandshake t
@@ -104,12 +112,13 @@ inductive Ev
   | head (k : ReqKind)  -- the request head is complete
 deriving DecidableEq, Repr
 
-/-- after `http.ReadRequest` returned: the deadline becomes `wholeReqDeadline` (anchored at the first byte
-    `t0`, which is the header phase's anchor) -/
-def afterHead (L : Limits) (c : Conn) : ReqKind → Conn
+/-- after `http.ReadRequest` returned at `t`: the deadline becomes `wholeReqDeadline` (anchored at the first
+    byte `t0`, which is the header phase's anchor); an intercepted CONNECT is answered at once and
+    `handleMITM` arms the idle deadline anew for the first tunnel byte -/
+def afterHead (L : Limits) (c : Conn) (t : Nat) : ReqKind → Conn
   | .noBody => ⟨.waitingForOrigin, c.anchor, none⟩
   | .withBody => ⟨.body, c.anchor, dl L.read c.anchor⟩
-  | .connectMitm => ⟨.mitmPeek, c.anchor, dl L.read c.anchor⟩
+  | .connectMitm => enter L .mitmPeek t
 
 /-- transition on an event observed at `t` (events that make no sense in a phase are ignored) -/
 def next (S : Stacking) (L : Limits) (c : Conn) (t : Nat) (e : Ev) : Conn :=
@@ -117,8 +126,8 @@ def next (S : Stacking) (L : Limits) (c : Conn) (t : Nat) (e : Ev) : Conn :=
   | .proxyHeader, .complete => if S.tls then enter L .tlsHandshake t else enter L .idle t
   | .tlsHandshake, .complete => enter L .idle t
   | .idle, .data => enter L .header t
-  | .idle, .head k => afterHead L (enter L .header t) k
-  | .header, .head k => afterHead L c k
+  | .idle, .head k => afterHead L (enter L .header t) t k
+  | .header, .head k => afterHead L c t k
   | .body, .complete => ⟨.waitingForOrigin, c.anchor, none⟩
   | .mitmPeek, .data => enter L .mitmHandshake t
   | .mitmHandshake, .complete => enter L .idle t
@@ -157,45 +166,28 @@ structure Peer where
   script : List (Nat × Ev)
 deriving DecidableEq, Repr
 
-/-- instant at which the first unit a peer sends is complete (on a PROXY listener: its header) -/
-def firstComplete : List (Nat × Ev) → Option Nat
-  | [] => none
-  | (t, .complete) :: _ => some t
-  | _ :: rest => firstComplete rest
-
-/-- `proxyproto.Conn.RemoteAddr()` called at `a` on a connection whose header is complete at `h`
-    (`none` = never): returns when the header is there or `T` after the call; `T = 0` waits for ever
-    (`none` = never returns) -/
-def hdrWait (T a : Nat) : Option Nat → Option Nat
-  | some h => some (if T = 0 then max a h else min (max a h) (a + T))
-  | none => if T = 0 then none else some (a + T)
-
-/-- `conn.RemoteAddr()` as evaluated by `Serve` for its debug log line -/
-def remoteAddrReturns (S : Stacking) (L : Limits) (a : Nat) (p : Peer) : Option Nat :=
-  if S.proxy then hdrWait L.proxyHdr a (firstComplete p.script) else some a
-
-/-- `Serve`: sequential.  `free` = instant at which the loop next calls `Accept` (`none` = never again).
-    Per peer in queue order: (instant `Accept` returned it, instant `go handleLoop` was issued). -/
-def serve (S : Stacking) (L : Limits) : Option Nat → List Peer → List (Option Nat × Option Nat)
+/-- `Serve` on a listener of stacking `S` with limits `L`: sequential, `Accept; go handleLoop(conn)`.
+    `free` = instant at which the loop next calls `Accept`.  Per peer in queue order: (instant `Accept`
+    returned it, instant its goroutine was started).  The loop never uses the connection, so `S`, `L` and
+    the peers' scripts do not occur in the body. -/
+def serve (S : Stacking) (L : Limits) : Nat → List Peer → List (Nat × Nat)
   | _, [] => []
-  | none, _ :: ps => (none, none) :: serve S L none ps
-  | some free, p :: ps =>
+  | free, p :: ps =>
     let a := max free p.arrive
-    let s := remoteAddrReturns S L a p
-    (some a, s) :: serve S L s ps
+    (a, a) :: serve S L a ps
 
 /-- service start (the connection has its own goroutine) of every peer -/
-def starts (S : Stacking) (L : Limits) (free : Option Nat) (ps : List Peer) : List (Option Nat) :=
+def starts (S : Stacking) (L : Limits) (free : Nat) (ps : List Peer) : List Nat :=
   (serve S L free ps).map (·.2)
 
-/-- what happens to the `k`-th peer: `none` = never taken from the accept queue -/
-def outcomeOf (S : Stacking) (L : Limits) (free : Option Nat) (ps : List Peer) (k : Nat) : Option Outcome :=
+/-- what happens to the `k`-th peer (`none` = there is no such peer): its own process starts with the
+    first use of the connection (on a PROXY listener: the header wait) at the instant its goroutine starts -/
+def outcomeOf (S : Stacking) (L : Limits) (free : Nat) (ps : List Peer) (k : Nat) : Option Outcome :=
   match (serve S L free ps)[k]?, ps[k]? with
-  | some (some a, _), some p => some (run S L (accepted S L a) p.script)
+  | some (_, s), some p => some (run S L (accepted S L s) p.script)
   | _, _ => none
 
-/-- accept loop of a (hypothetical) server without the `RemoteAddr()` call: what "per-connection
-    goroutines" promises -/
+/-- the accept instants as a function of the arrival instants alone -/
 def runningMax : Nat → List Nat → List Nat
   | _, [] => []
   | free, a :: as => max free a :: runningMax (max free a) as
